@@ -27,13 +27,17 @@ def main():
     assert r.returncode == 0, r.stderr
     ran = []
     try:
-        d0 = sh(f"cd {wt} && /venv/bin/python {src}/demo.py")
+        # run the demo from inside the scratch worktree, at the path the agent used (_seed/<k>/demo.py), so that demos
+        # which locate the package relative to their own file import the scratch tree
+        os.makedirs(f"{wt}/_seed", exist_ok=True)
+        shutil.copytree(src, f"{wt}/_seed/{k}")
+        d0 = sh(f"cd {wt} && /venv/bin/python _seed/{k}/demo.py")
         ran.append(f"unchanged tree: demo.py exit {d0.returncode}")
         r = sh(f"git -C {wt} apply {src}/patch.diff")
         if r.returncode:
             print("PATCH DOES NOT APPLY", r.stderr)
             return 1
-        d1 = sh(f"cd {wt} && /venv/bin/python {src}/demo.py")
+        d1 = sh(f"cd {wt} && /venv/bin/python _seed/{k}/demo.py")
         ran.append(f"changed tree: demo.py exit {d1.returncode}")
         t = sh(f"cd {wt} && /venv/bin/python -m pytest -q -p no:cacheprovider --timeout=900 --continue-on-collection-errors "
                f"--junitxml=/tmp/seedconfirm_{sid}.xml; /venv/bin/python {ROOT}/tools_baseline.py /tmp/seedconfirm_{sid}.xml")
